@@ -320,7 +320,7 @@ def save_rdtrajectory(so, path, separate_data=True) :
         }
     
     if so.cgmap is not None :
-        d["cgmap"] = list(so.cgmap)
+        d["cgmap"] = [int(i) for i in so.cgmap]
     
     if separate_data :
         d["data"] = {"value" : filepath.get_last_element(data_path), "units" : str(so.data.units)}
